@@ -6,7 +6,8 @@ REQUIRED = ["CifModel.C02_text_protocol", "CifModel.C02_fold_line_progress", "Ci
             "CifModel.C02_analysis_facts", "CifModel.C02_write_char_text",
             "CifModel.C02_value_presented", "CifModel.C02_value_roundtrip", "CifModel.C02_unquoted_stays_unquoted",
             "CifModel.C02_total", "CifModel.C02_total_no_tables", "CifModel.C02_line_bound",
-            "CifModel.C02_bare_value", "CifModel.C02_parse_value_roundtrip", "CifModel.C02_parse_item_roundtrip"]
+            "CifModel.C02_bare_value", "CifModel.C02_parse_value_roundtrip", "CifModel.C02_parse_item_roundtrip",
+            "CifModel.C02_roundtrip_doc", "CifModel.C02_roundtrip_doc_instance", "CifModel.C02_roundtrip_doc_sample"]
 GEN = ["WriterConsts", "ErrCodes"]
 FAMILIES = ["decode", "writeval", "write"]
 TRUSTED_BASE = [
@@ -25,9 +26,12 @@ ASSUMPTIONS = [
     "decode_text is modelled for a scanner without extra whitespace / end-of-line characters",
 ]
 PARTIAL = [
-    "C02_roundtrip_doc_full (whole documents against group gJ's parser model) is stated, not proved: the composition over the container / "
-    "loop / list / table productions is missing (gJ's C01_structure is open too); proved: the value level through the parser's own value "
-    "production (C02_parse_value_roundtrip, both dialects), C02_line_bound, C02_total; kernel-evaluated whole-document instances",
+    "C02_roundtrip_doc (whole documents against group gJ's integrated parser model) is PROVED for every callback policy: writeCif 0 cif = ok out "
+    "-> parse = CIF_OK, no report, and the blocks / frames / loops / packets / values written come back (backBlock), under cifR (allowed "
+    "characters, valid codes / names / keys, the scalar loop has one packet, an unquoted number that fits a line is a whitespace-delimited "
+    "value), blocksN (valid and pairwise different codes and names, loops with header and packets) and containersL (C02_line_bound's "
+    "hypotheses); restricted to ONE level of save frames (what Spec/Grammar documents express); the unrestricted statement stays visible as "
+    "C02_roundtrip_doc_full; the quoted flag of an unquoted value may change (known finding F-unquoted-overlong)",
     "C02_line_bound is proved for whole documents (both versions, every walk order) in code UNITS (hence characters), under containersL: "
     "codes/names fit a line, strings without NUL/CR, number texts one line of BMP units of any length",
     "C02_total is proved for whole documents (every walk order): writable CIF -> CIF_OK, or CIF_DISALLOWED_VALUE and the CIF holds a table "
@@ -38,7 +42,7 @@ LEVEL_TEXT = ("Proof (partial): the line-folding / text-prefix protocol is prove
               "flags it derives (C02_char_text_roundtrip); fold_line is proved to make progress (never CIF_INTERNAL_ERROR). The writer and "
               "decode_text models are tied to /repo by translated constants (link lemmas) and byte-exact differential execution of cif_write "
               "on single values at chosen columns and on whole random CIFs, with a write -> cif_parse -> compare oracle on the real code.")
-LEVEL_NOTE = ("Partial: value-level round trip through the lexer, the whole-document line bound and totality are stated (_full) but not proved; "
-              "they are checked per generated case by the implementation-level oracle. Trusted: Lean kernel, translator, harness/oracle, ICU "
+LEVEL_NOTE = ("Whole-document round trip (C02_roundtrip_doc, every policy, one level of save frames), line bound and totality are proved about the "
+              "models and checked per generated case by the implementation-level oracle. Trusted: Lean kernel, translator, harness/oracle, ICU "
               "output conventions, Model/Analyze of group gA.")
 TECHNIQUE = "Lean 4 proof about an executable model of the writer and of decode_text, tied to the sources by translated constants and byte-exact differential execution"
